@@ -31,3 +31,7 @@ mod test {
         PORT.fetch_add(1, Ordering::Relaxed)
     }
 }
+
+#[cfg(feature = "pendulum_project_ntpd_rs_verif")]
+#[path = "/verif/hooks/ntpd/lib.rs"]
+pub mod verif;
